@@ -97,7 +97,8 @@ func (m *Msg) toGo() *schema.Message {
 			if m.Meta.LP != nil {
 				s := make([]schema.LogProb, len(m.Meta.LP), len(m.Meta.LP)+spare)
 				for i, t := range m.Meta.LP {
-					s[i] = schema.LogProb{Token: t, LogProb: -float64(len(t))}
+					s[i] = schema.LogProb{Token: t, LogProb: -float64(len(t)), Bytes: []int64{int64(len(t))},
+						TopLogProbs: []schema.TopLogProb{{Token: t + "'", LogProb: -1}}}
 				}
 				full := s[:cap(s)]
 				for i := len(s); i < cap(s); i++ {
@@ -154,7 +155,11 @@ func fromGoMsg(g *schema.Message) *Msg {
 	if g.MultiContent != nil {
 		m.Multi = []string{}
 		for _, p := range g.MultiContent {
-			m.Multi = append(m.Multi, p.Text)
+			txt := p.Text
+			if p.Type != schema.ChatMessagePartTypeText {
+				txt = "CORRUPT:" + txt
+			}
+			m.Multi = append(m.Multi, txt)
 		}
 	}
 	if g.ToolCalls != nil {
@@ -185,7 +190,13 @@ func fromGoMsg(g *schema.Message) *Msg {
 			if lp.Content != nil {
 				mm.LP = []string{}
 				for _, p := range lp.Content {
-					mm.LP = append(mm.LP, p.Token)
+					// the whole entry must survive, not only the token
+					tok := p.Token
+					if p.LogProb != -float64(len(tok)) || len(p.Bytes) != 1 || p.Bytes[0] != int64(len(tok)) ||
+						len(p.TopLogProbs) != 1 || p.TopLogProbs[0].Token != tok+"'" {
+						tok = "CORRUPT:" + tok
+					}
+					mm.LP = append(mm.LP, tok)
 				}
 			}
 		}
